@@ -14,7 +14,8 @@
 (* prefix is a state too.                                                  *)
 (*                                                                         *)
 (* For every text the state carries                                        *)
-(*    h   = [cls, val]  H: TypeRepo!Classify / Value                       *)
+(*    h   = [cls, val, amb, shape]  H: TypeRepo!Classify / Value, and for   *)
+(*          timestamps the spelling classes (TypeRepo!TimestampShape)      *)
 (*    l   = [tag, val]  L: Resolver!Load(text, (True, False))              *)
 (*    dev = how l relates to h                                             *)
 (* and TLC checks L => H (LRefinesH), the unambiguity of the repository    *)
@@ -36,7 +37,10 @@ vars == <<p, text, k, h, l, dev>>
 Plain  == <<TRUE, FALSE>>      \* ScalarEvent.implicit of a plain scalar
 Quoted == <<FALSE, TRUE>>      \* ... of a quoted or block scalar
 
-HRes(s) == H!Meaning(s)
+\* the meaning of the text; for timestamps also its spelling classes (coverage accounting of the enumeration)
+HRes(s) == LET m == H!Meaning(s) IN
+           [cls |-> m.cls, val |-> m.val, amb |-> m.amb,
+            shape |-> IF m.cls = "timestamp" /\ ~m.amb THEN <<H!TimestampShape(s)>> ELSE <<>>]
 LRes(s) == L!Load(s, Plain)
 
 TzAgree(htz, ltz) ==
